@@ -65,7 +65,9 @@ ToneInfo _get_psd_tone(const dsplib::arr_real& spec, real_t tone_freq) {
 
     const arr_real f_fund = arange(lpos, rpos + 1) / n;
     const arr_real s_fund = spec.slice(lpos, rpos + 1);
-    const auto freq = dot(f_fund, s_fund) / sum(s_fund);
+    //a region without power (e.g. an already removed tone) has no centroid: keep the nominal frequency
+    const auto p_fund = sum(s_fund);
+    const auto freq = (p_fund > 0) ? (dot(f_fund, s_fund) / p_fund) : (real_t(freq_num) / n);
 
     ToneInfo info;
     info.size = n;
